@@ -32,25 +32,55 @@ MANIFEST = dict(
          'byte-identical, a second save is the identity, any number of look/save cycles is lossless; save completes whenever '
          'writers look only where readers looked (decidable on the graph). Each clause of order_consistent and each flag of the '
          'shape (raw data cleared before the reader finished = seeded c10_2; save walking a snapshot of the cached views = '
-         'seeded c10_1) is shown harmful by a closed counterexample. Container: read (write c) = Some c for every well-formed '
+         'seeded c10_1) is shown harmful by a closed counterexample. Writers whose stores are conditional (SM/LazyLumpsCond.v): '
+         'a skipped store of a lump the view clears IS a store of b\'\' (save_c = save with the filled writer, all graphs / '
+         'histories), so such a writer is lossless iff the reader makes of b\'\' exactly the value for which the store is skipped '
+         '(seeded c10_4 refuted in closed form); the translator lists every store under a data-dependent condition and the '
+         'obligation cleared_lumps_are_never_stored_conditionally forbids them on cleared lumps. Writers that store a lump no '
+         'view owns (FACEIDS; SM/LazyLumpsSide.v): if on the values parsed from the file each such store puts back what the file '
+         'holds, saving with them equals saving without them pointwise, hence lossless; fabricated / zero-padded ids refuted. '
+         'Readers that change cached objects of a view they look at (bmodels strips the model keys of the entities; '
+         'SM/LazyLumpsMut.v): if the change is made only after the reader\'s parse succeeded, the mutated view is looked at by '
+         'reader and writer of the mutating view, no two views change the same view and the writer undoes the change on the '
+         'values of this file, the mutating machine saves exactly like the plain one (simulation over all histories), hence '
+         'lossless; change-before-raise (fix 61823d3) and missing undo refuted. '
+         'Container: read (write c) = Some c for every well-formed '
          'container and layout with LZMA as an inverse pair (header, 64-row table in standard and L4D2 field order, revision, '
          'payload placement in write order, game-lump directory with absolute offsets, NUL separators and the dummy entry); '
          'four wf conditions shown necessary. order_consistent bsp_graph, shape_ok bsp_shape, layout_ok bsp_layout, '
-         'bsp_layout = std_layout and 18 further named obligations are re-derived from bsp.py and kernel-checked on every run.',
+         'bsp_layout = std_layout and 24 further named obligations are re-derived from bsp.py and kernel-checked on every run.',
     note='Assumed in the theorems (visible hypotheses): each lump writer inverts its reader on the file\'s lumps (codec_ok, '
          'wr_len_ok: property C11); decompress (compress d) = d (CPython lzma). The container theorem is about the model '
          'Fmt/BspContainer.v, tied to BSP.read/BSP.save by byte-exact correspondence on random containers (not by a translator of '
          'the save body beyond its constants and loop shape); negative int32 fields, files >= 2 GiB, duplicate game-lump ids and '
          'truncated files are outside wf. Writers that append to a view they look at (find_or_insert) are classified and '
          'obliged to be read-or-append only; that appends are no-ops on values parsed from the file (every referenced item is '
-         'already in its table: C11 find_or_insert_sound) is assumed, checked end to end by the oracle. Not modelled, searched '
-         'only: FACEIDS (conditionally stored, unowned), VitaminSource-only branches, hidden mutation of the ents view by the '
-         'bmodels reader, zipfile. A save that raises because a writer looks at an unparsable view of a malformed file produces no '
+         'already in its table: C11 find_or_insert_sound) is assumed, checked end to end by the oracle. FACEIDS (unowned, stored '
+         'conditionally by the three face writers) is modelled under the visible hypothesis side_ok, whose data half (the ids '
+         'written are the bytes of the file) is checked by the oracle only, on FACEIDS lumps that are full, all zero, empty and '
+         'shorter than the face array; a FACEIDS lump LONGER than the face array (no compiler writes one) is cut to the face '
+         'count by a look at faces + save (same parsed content, different bytes): outside the inputs searched. Hidden mutations: '
+         'the translator lists the (reader, view) pairs by a taint analysis (may-analysis of direct attribute/item stores and '
+         'mutating method calls, followed through BSP methods; changes made inside other classes\' methods are not seen) and '
+         'the check pins the list; for (bmodels, ents) the graph hypotheses of the theorem and "nothing that can raise follows '
+         'the first change" (a syntactic tail condition on the reader) are obligations, "the writer undoes it" is searched '
+         '(malformed input bmodel_ref, oracle); the texinfo/hammer_id '
+         'fields the face readers set on the shared orig_faces objects are searched only. Not modelled, '
+         'searched only: VitaminSource-only branches, '
+         'zipfile. A save that raises because a writer looks at an unparsable view of a malformed file produces no '
          'file and is not counted as a violation. Trusted: Coq kernel + vm_compute, translate/c10_bspgraph.py (may-analysis; its '
          'result must contain every dynamically traced dependency), hand models SM/LazyLumps.v and Fmt/BspContainer.v (tied by '
-         'correspondence), harness/c10_util.py, CPython lzma/zipfile.',
+         'correspondence; SM/LazyLumpsCond.v and SM/LazyLumpsSide.v extend the first and are tied only through the obligations '
+         'on the translated store lists), harness/c10_util.py, CPython lzma/zipfile.',
 )
 
+# (reader, view) pairs where the reader changes, in place, objects it reaches through another view; each was reviewed:
+# bmodels takes the "model" key out of the brush entities of ents (its writer, which precedes the ents writer in the rebuild
+# order, puts it back; since fix 61823d3 only after every reference was resolved, so a look that raises leaves them alone);
+# faces / hdr_faces set texinfo and hammer_id of the orig_faces objects (the ORIGINALFACES reader ignores both fields)
+REVIEWED_ELEMENT_MUTATIONS = [('bmodels', 'ents'), ('faces', 'orig_faces'), ('hdr_faces', 'orig_faces')]
+# the pairs of the kind "the reader changes, the writer of the same view undoes" (theorem c10_hidden_mutation_lossless)
+RESTORED_ELEMENT_MUTATIONS = [('bmodels', 'ents')]
 IMPORTS = ['SV.SM.LazyLumps', 'SV.SM.LazyLumpsProofs', 'SV.Fmt.BspContainer', 'SV.Gen.BspGraph_gen', 'Coq.Strings.String', 'Coq.Lists.List', 'Coq.Arith.Arith', 'Coq.Bool.Bool']
 VIEWS = ['pakfile', 'ents', 'textures', 'texinfo', 'cubemaps', 'overlays', 'bmodels', 'brushes', 'visleafs',
          'water_leaf_info', 'nodes', 'visibility', 'vertexes', 'surfedges', 'planes', 'faces', 'orig_faces', 'hdr_faces',
@@ -364,7 +394,8 @@ def run_trial(subj: Subject, cycles: list[list[str]], work: Path, own: dict[str,
 
 # ================================================================================================ inputs
 DEFAULT_OPTS = dict(layout='v20', compress=(), origin_vertex=True, faceids='full', water=True, overlay_aux=True, vis=True,
-                    n_extra=1, extra_game=False, compress_game=(), fractional_bounds=False, detail_shapes=False, hdr=True, bad=())
+                    n_extra=1, extra_game=False, compress_game=(), fractional_bounds=False, detail_shapes=False, hdr=True, bad=(),
+                    aux='normal')
 VARIANTS: list[dict] = (
     [dict(layout=l) for l in c10_util.LAYOUTS]
     + [dict(compress=('ENTITIES', 'PLANES', 'LEAFS', 'LIGHTING', 'FACES', 'TEXDATA_STRING_DATA')),
@@ -372,14 +403,18 @@ VARIANTS: list[dict] = (
        dict(compress_game=('dprp',)), dict(compress_game=('sprp', 'dprp', 'xtra'), extra_game=True),
        dict(extra_game=True), dict(layout='l4d2', compress=('ENTITIES', 'BRUSHES'), compress_game=('dprp',)),
        dict(n_extra=0), dict(n_extra=2, layout='v21'), dict(water=False), dict(overlay_aux=False), dict(vis=False),
-       dict(hdr=False), dict(faceids='zeros'), dict(faceids='empty'), dict(origin_vertex=False),
+       dict(hdr=False), dict(faceids='zeros'), dict(faceids='empty'), dict(faceids='short'), dict(origin_vertex=False),
        dict(layout='chaos', fractional_bounds=True), dict(detail_shapes=True)]
+    # side lumps (cleared by a look, restored only by the view's writer) at the values where they LOOK unused
+    + [dict(aux='zero'), dict(aux='default'), dict(aux='mixed'), dict(aux='maxed'), dict(aux='absent'),
+       dict(aux='zero', layout='l4d2', compress=('OVERLAY_FADES', 'LEAFMINDISTTOWATER', 'TEXDATA'))]
 )
 # malformed lumps: looking at the view raises (at once, or after other views were parsed), the caller goes on and saves
 BAD_VARIANTS: list[dict] = [
     dict(bad=('sprp_version',)), dict(bad=('sprp_size',)), dict(bad=('ents',)), dict(bad=('texinfo',)),
     dict(bad=('sprp_version',), compress_game=('sprp',)), dict(bad=('ents', 'dprp'), compress=('ENTITIES',), compress_game=('dprp',)),
     dict(bad=('overlays', 'sprp_size'), layout='v21', compress=('OVERLAYS',)), dict(bad=('texinfo', 'ents'), layout='l4d2'),
+    dict(bad=('bmodel_ref',)),
 ]
 
 
@@ -551,18 +586,20 @@ Definition sim (g : graph) (ne bad : list nat) (accs : list nat) :=
 '''
     bad = []
     total = raised = 0
+    exprs = []
     for subj, g, runs, ref_nonempty, failed in cases:
         ne = sorted(lnum[l.split(':', 1)[1]] if l.startswith('game:') else lnum[l] for l in ref_nonempty
                     if (l.split(':', 1)[1] if l.startswith('game:') else l) in lnum)
         glit = coq_list('mkV [%s] [%s] [%s] [%s]' % tuple(';'.join(map(str, x)) for x in d) for d in g)
-        exprs = [f'let g := {glit} in map (sim g [{";".join(map(str, ne))}] [{";".join(map(str, failed))}]) '
-                 + coq_list('[' + ';'.join(str(pos[v]) for v in accs) + ']' for accs, *_ in runs)]
-        vals = ck.coq_eval(IMPORTS, exprs, name='corr', preamble=pre)
-        if vals is None:
-            ck.obligation('correspondence:get-save-model', False, 'model could not be evaluated')
-            ck.tie_broken.append('correspondence get/save: model evaluation failed')
-            return
-        res = parse_coq_nested(vals[0])
+        exprs.append(f'let g := {glit} in map (sim g [{";".join(map(str, ne))}] [{";".join(map(str, failed))}]) '
+                     + coq_list('[' + ';'.join(str(pos[v]) for v in accs) + ']' for accs, *_ in runs))
+    vals = ck.coq_eval(IMPORTS, exprs, name='corr', preamble=pre)      # one expression per file, one coqc run for all
+    if vals is None:
+        ck.obligation('correspondence:get-save-model', False, 'model could not be evaluated')
+        ck.tie_broken.append('correspondence get/save: model evaluation failed')
+        return
+    for (subj, g, runs, ref_nonempty, failed), val in zip(cases, vals):
+        res = parse_coq_nested(val)
         for (accs, flags, o1, saved, o2), m in zip(runs, res):
             total += 1
             raised += not all(flags)
@@ -783,10 +820,13 @@ Definition case (t : list (list N * list N)) (c : container) (impl aligned : lis
 # ================================================================================================ main
 def run(ck: Ck) -> None:
     ck.rule = ('inputs: tests/test_vec/rot_main.bsp and synthesised consistent BSPs (7 layouts x options: LZMA lumps, '
-               'compressed / extra game lumps, missing aux lumps, FACEIDS variants, no origin vertex, water, vis); histories: '
+               'compressed / extra game lumps, missing aux lumps, FACEIDS variants, no origin vertex, water, vis; side lumps '
+               '(OVERLAY_FADES, OVERLAY_SYSTEM_LEVELS, LEAFMINDISTTOWATER, LEAFFACES, LEAFBRUSHES, PRIMINDICES, PRIMVERTS, '
+               'BRUSHSIDES, TEXDATA, TEXDATA_STRING_TABLE) at the values where they look unused: all zero, the reader\'s defaults '
+               'for an absent lump, first record zero, all bits set, optional side lumps absent); histories: '
                'no access, every single view, every ordered pair on the default file, random subsets and orders, all views '
-               'forwards/backwards, 1-3 look/save cycles; 8 malformed inputs (unknown static-prop version, stray bytes in the prop '
-               'lump, unterminated entity, texinfo naming a missing texdata, truncated detail props / overlays, also LZMA-compressed) '
+               'forwards/backwards, 1-3 look/save cycles; 9 malformed inputs (unknown static-prop version, stray bytes in the prop '
+               'lump, unterminated entity, entity naming a missing brush model, texinfo naming a missing texdata, truncated detail props / overlays, also LZMA-compressed) '
                'whose failing views are looked at inside try/except before saving; random small containers for the container '
                'model; a case is non-trivial when at least one view is looked at; distinct by (input, access cycles)')
     ck.trusted.append('hand-written models SM/LazyLumps.v (tied by traced correspondence on every run, including looks that raise) '
@@ -809,6 +849,12 @@ def run(ck: Ck) -> None:
     if built:
         ck.theorems('Props/C10.v')
         n = 'length bsp_graph'
+        vpos = {v: i for i, v in enumerate(side['view_at']) if v}
+        reviewed = sorted((vpos[a], vpos[b]) for a, b in REVIEWED_ELEMENT_MUTATIONS if a in vpos and b in vpos)
+        reviewed_coq = '(' + ' :: '.join([f'({a}, {b})' for a, b in reviewed] + ['nil']) + ')'
+        pair_eqb = '(fun p q => Nat.eqb (fst p) (fst q) && Nat.eqb (snd p) (snd q))'
+        restored = sorted((vpos[a], vpos[b]) for a, b in RESTORED_ELEMENT_MUTATIONS if a in vpos and b in vpos)
+        restored_coq = '(' + ' :: '.join([f'({a}, {b})' for a, b in restored] + ['nil']) + ')'
         inst = ck.instance_obligations(IMPORTS, {
             'order_consistent_bsp_graph': 'order_consistent bsp_graph',
             'every_dependency_later_in_rebuild_order': f'forallb (deps_later bsp_graph) (seq 0 ({n}))',
@@ -821,6 +867,15 @@ def run(ck: Ck) -> None:
             'raw_reads_own_or_unowned': 'forallb (fun p => mem (snd p) (own bsp_graph (fst p)) || '
                                         f'negb (existsb (fun j => mem (snd p) (own bsp_graph j)) (seq 0 ({n})))) bsp_raw_reads',
             'stores_go_to_owned_lumps': 'forallb (fun p => mem (snd p) (own bsp_graph (fst p))) bsp_stores',
+            # a lump that a look clears (ParsedLump.to_clear) is empty when the writer runs: a store of it that is skipped under
+            # some data-dependent condition ("only when used") leaves it empty in the saved file (seeded c10_4)
+            'cleared_lumps_are_never_stored_conditionally':
+                f'forallb (fun p => negb (existsb (fun j => mem (snd p) (own bsp_graph j)) (seq 0 ({n})))) bsp_cond_stores',
+            # hypothesis side_ok of c10_store_outside_view_lossless, its graph half: a writer stores, outside the lumps of
+            # its own view, only lumps that no view owns (FACEIDS)
+            'stores_outside_the_view_go_to_unowned_lumps':
+                'forallb (fun p => mem (snd p) (own bsp_graph (fst p)) || '
+                f'negb (existsb (fun j => mem (snd p) (own bsp_graph j)) (seq 0 ({n})))) (bsp_stores ++ bsp_cond_stores)',
             'conditional_stores_only_FACEIDS_unowned': 'forallb (fun p => Nat.eqb (snd p) 11 && '
                                                        f'negb (existsb (fun j => mem 11 (own bsp_graph j)) (seq 0 ({n})))) bsp_cond_stores',
             # statement order of ParsedLump.__get__ and loop shape of BSP.save (hypothesis shape_ok of the theorems)
@@ -837,6 +892,20 @@ def run(ck: Ck) -> None:
             'container_layout_ok': 'layout_ok bsp_layout',
             'container_struct_formats_as_modelled': 'list_eqb String.eqb bsp_container_formats '
                                                     '("<4si" :: "<4i" :: "<i" :: "<4s HH ii" :: nil)%string',
+            # objects reached through another view (entities of ents, faces of orig_faces) changed in place: only the reviewed
+            # (reader, view) pairs; any other hidden mutation of a cached view is outside the model
+            'readers_change_objects_of_other_views_only_where_reviewed':
+                f'forallb (fun p => existsb ({pair_eqb} p) {reviewed_coq}) bsp_reader_elem_mutations',
+            'writers_change_no_objects_of_other_views': 'match bsp_writer_elem_mutations with nil => true | _ => false end',
+            # graph hypotheses of c10_hidden_mutation_lossless for the restored pairs: the mutated view is looked at by the reader
+            # AND by the writer of the mutating view, and no other reader changes objects of the same view
+            'restored_mutations_are_looked_at_by_reader_and_writer_and_unique':
+                f'forallb (fun p => mem (snd p) (v_rdeps (decl bsp_graph (fst p))) && mem (snd p) (v_wdeps (decl bsp_graph (fst p))) && '
+                f'forallb (fun q => negb (Nat.eqb (snd q) (snd p)) || Nat.eqb (fst q) (fst p)) bsp_reader_elem_mutations) {restored_coq}',
+            # hypothesis early = false of the same theorem: from the first change on, the reader consists of nothing but the
+            # changes themselves, the loops / tests around them and the final return (nothing that can still raise follows)
+            'restored_mutations_happen_after_everything_that_can_raise':
+                f'forallb (fun p => negb (existsb ({pair_eqb} p) bsp_reader_elem_mutations_early)) {restored_coq}',
             'readers_only_read_the_views_they_look_at': 'forallb (fun u => Nat.eqb (snd u) 0) bsp_reader_uses',
             'writers_only_read_or_append_to_the_views_they_look_at': 'forallb (fun u => Nat.leb (snd u) 1) bsp_writer_uses',
         })
@@ -864,10 +933,11 @@ def run(ck: Ck) -> None:
         ck.hist('input_malformed', '+'.join(opts['bad']))
     # ---------------------------------------------------------------------------- correspondence
     if built and side:
-        corr_files = [default, synth_subjects[0][1], synth_subjects[5][1]] + subjects[:1] + \
+        aux_zero = next(s for o, s in synth_subjects if o == dict(aux='zero'))
+        corr_files = [default, synth_subjects[0][1], synth_subjects[5][1], aux_zero] + subjects[:1] + \
                      [bad_subjects[1][1], bad_subjects[3][1], bad_subjects[5][1]]
         correspondence(ck, side, corr_files, work)
-        container_check(ck, [s for _, s in synth_subjects] + [s for _, s in bad_subjects[:2]] + subjects[:1], work)
+        container_check(ck, [s for o, s in synth_subjects if 'aux' not in o] + [s for _, s in bad_subjects[:2]] + subjects[:1], work)
         container_model_check(ck, work)
     tm['inputs+correspondence'] = round(time.time() - t0, 1)
     t0 = time.time()
@@ -949,9 +1019,19 @@ def run(ck: Ck) -> None:
     for k, (opts, s) in enumerate(synth_subjects):
         attempt(s, opts, [[]])
         attempt(s, opts, [list(VIEWS)])
-        attempt(s, opts, [list(reversed(VIEWS))])
-        # every single view on every layout; on the option variants a sample of 6 in the quick tier
-        for v in (VIEWS if k < len(c10_util.LAYOUTS) or ck.budget(0, 1) else rng.sample(VIEWS, 4)):
+        if k < len(c10_util.LAYOUTS) or ck.budget(0, 1):
+            attempt(s, opts, [list(reversed(VIEWS))])
+        # every single view on every layout (quick: on v19, v20, l4d2, chaos, vitamin; a sample of 8 on v21 and infra, which share
+        # their lump layouts' code paths with v20 / chaos); on the option variants a sample of 4 in the quick tier
+        if (k < len(c10_util.LAYOUTS) and dict(DEFAULT_OPTS, **opts)['layout'] not in ('v21', 'infra')) or ck.budget(0, 1):
+            singles = VIEWS
+        elif k < len(c10_util.LAYOUTS):
+            singles = rng.sample(VIEWS, 8)
+        elif 'aux' in opts:     # the views that own side lumps (and faces: FACEIDS), each alone
+            singles = [v for v in VIEWS if v == 'faces' or sum(1 for w in own.values() if w == v) > 1]
+        else:
+            singles = rng.sample(VIEWS, 4)
+        for v in singles:
             attempt(s, opts, [[v]])
     # malformed lumps: looks that raise are caught (like a defensive caller does), then the object is saved
     for opts, s in bad_subjects:
@@ -967,9 +1047,9 @@ def run(ck: Ck) -> None:
             rng.shuffle(cyc[0])
             attempt(s, opts, cyc)
     for k, (a, b) in enumerate(itertools.permutations(VIEWS, 2)):
-        if (a < b and k % 3 == 0) or ck.budget(0, 1):
+        if (a < b and k % 5 == 0) or ck.budget(0, 1):
             attempt(default, synth_subjects[1][0], [[a, b]])
-    nrand = ck.budget(60, 3000)
+    nrand = ck.budget(32, 3000)
     for i in range(nrand):
         opts, s = synth_subjects[rng.randrange(len(synth_subjects))]
         ncyc = rng.choice([1, 1, 1, 2, 3])
@@ -981,10 +1061,10 @@ def run(ck: Ck) -> None:
     t0 = time.time()
     for subj in subjects:       # the sample map (large entity lump: fewer trials)
         attempt(subj, None, [[]])
-        for v in (VIEWS if ck.budget(0, 1) else rng.sample(VIEWS, 9)):
+        for v in (VIEWS if ck.budget(0, 1) else rng.sample(VIEWS, 4)):
             attempt(subj, None, [[v]])
         attempt(subj, None, [list(VIEWS)])
-        for i in range(ck.budget(2, 60)):
+        for i in range(ck.budget(1, 60)):
             attempt(subj, None, [rng.sample(VIEWS, rng.choice([2, 3, 6, 12])) for _ in range(rng.choice([1, 2]))])
     tm['search_sample_map'] = round(time.time() - t0, 1)
     ck.sample({'input': default.desc, 'cycles': [['faces', 'ents'], ['bmodels']],
@@ -1003,6 +1083,14 @@ def run(ck: Ck) -> None:
         # outside the shapes the model was validated for (its abstraction of "the reader raises" is not data-exact there):
         # the concrete findings above are the explanation
         ck.explain('correspondence:get-save-model')
+    if any(inst.get(nm) is False for nm in ('order_consistent_bsp_graph', 'every_cleared_lump_stored_by_its_writer',
+                                            'cleared_lumps_are_never_stored_conditionally')) \
+            and any(f['kind'].split(':')[0] in ('view-content-changed', 'raw-changed', 'cache-not-empty-after-save')
+                    for f in found.values()):
+        # the model stores every lump of v_wstore when a writer runs; a writer that skips the store of a cleared lump (or a graph
+        # that is not order-consistent) is outside it, the traced runs disagree about the lumps left empty after save, and the
+        # concrete histories above show the loss
+        ck.explain('correspondence:get-save-model')
     for key, f in found.items():
         ck.violation(key, f'{f["kind"]}: {f["detail"]}', {k: v for k, v in f.items() if k != 'n'})
     ck.extra['violation_keys'] = sorted(found)
@@ -1017,7 +1105,11 @@ def run(ck: Ck) -> None:
                    'order_consistent_bsp_graph', 'every_dependency_later_in_rebuild_order', 'no_writer_looks_at_its_own_view',
                    'no_reader_looks_at_its_own_view', 'every_cleared_lump_stored_by_its_writer', 'no_lump_owned_twice',
                    'every_view_in_rebuild_order', 'no_two_views_share_a_main_lump', 'raw_reads_own_or_unowned',
-                   'stores_go_to_owned_lumps', 'conditional_stores_only_FACEIDS_unowned'):
+                   'stores_go_to_owned_lumps', 'conditional_stores_only_FACEIDS_unowned', 'stores_outside_the_view_go_to_unowned_lumps',
+                   'readers_change_objects_of_other_views_only_where_reviewed', 'writers_change_no_objects_of_other_views',
+                   'restored_mutations_are_looked_at_by_reader_and_writer_and_unique',
+                   'restored_mutations_happen_after_everything_that_can_raise',
+                   'cleared_lumps_are_never_stored_conditionally'):
             if inst.get(nm) is False:
                 ck.explain('instance:' + nm)
 
